@@ -8,7 +8,7 @@
 //!   <contract text, spliced between signature and body; may contain `//@loop <n> key=value` sections>
 //!   //@end
 //!
-//!   //@item <file> :: <enum|struct|const|type> <Name> [key=value ...]      (single line)
+//!   //@item <file> :: <enum|struct|const|static|type> <Name> [key=value ...]      (single line)
 //!   //@frag <file> :: <impl-selector> :: <fn> :: <fragment selector> [key=value ...]
 //!   <header text: the `fn name(params) -> (r: T)` + contract for the fragment>
 //!   //@end
@@ -1117,6 +1117,7 @@ fn find_item<'f>(f: &'f FileCtx, kind: &str, name: &str) -> Result<&'f Item, Str
             ("struct", Item::Struct(s)) => s.ident == name,
             ("const", Item::Const(c)) => c.ident == name,
             ("type", Item::Type(t)) => t.ident == name,
+            ("static", Item::Static(t)) => t.ident == name,
             ("fn", Item::Fn(t)) => t.sig.ident == name,
             _ => false,
         };
